@@ -632,7 +632,7 @@ Lemma to_bits_wrap_witness :
   to_bits_num 1099511627563 8 0 false (-128) 8 [1;1;1;1;1;1;1;1] 0 <> bits_of (-128) 8.
 Proof. vm_compute. discriminate. Qed.
 
-(** l > bit_length on a nonintegral fixed-point number: admitted by the code's assert
+(** l > bit_length on a nonintegral fixed-point number: allowed by the code's assert
     (l <= bit_length + frac_length), no wrap, yet the result is not the expansion of A *)
 Lemma to_bits_l_gt_bit_length_refuted :
   exists p L f A l rbits rdivl,
